@@ -375,7 +375,8 @@ def cmd_check(args):
         with ThreadPoolExecutor(max_workers=min(16, len(groups))) as ex:
             results = list(ex.map(lambda gn: verify_group(gn, scratch, rl), groups))
         extra_results = []
-        for hook in pc.get("kani", []):
+        hooks = list(pc.get("kani", [])) + (list(pc.get("thorough_kani", [])) if tier == "thorough" else [])
+        for hook in hooks:
             import kani_driver
             extra_results.append(kani_driver.run(hook, scratch, tier))
         rc = report(pid, pc, tier, seed, results, extra_results, time.time() - t0)
